@@ -420,6 +420,34 @@ def _reserved_names(sent: int, which: int, word: int, noloc: bool) -> bool:
     return result(ok, True)
 
 
+# ------------------------------------------------------------------ grammar sentences with a SPAN of tokens removed / doubled (empties brackets, drops whole optional parts, repeats list items)
+def _span_edits(sent: int, start: int, length: int, dup: bool, noloc: bool) -> bool:
+    """
+    pre: 0 <= sent < N_SENT and 0 <= start < 40 and 1 <= length <= 4
+    pre: thorough() or (length <= 3 and not dup)
+    pre: shard_of(sent)
+    post: _
+    """
+    S = concrete_int(sent, 0, N_SENT - 1)
+    with untraced():
+        entry, toks, names = sentence_tokens()[S]
+        n = len(toks)
+    if start + length > n:
+        return result(True, False)
+    ST, LN = concrete_int(start, 0, 39), concrete_int(length, 1, 4)
+    DUP = True if dup else False
+    with untraced():
+        if DUP:
+            new = toks[:ST + LN] + toks[ST:ST + LN] + toks[ST + LN:]          # the span written twice
+        else:
+            new = toks[:ST] + toks[ST + LN:]                                   # the span removed (e.g. everything between two brackets)
+        sup = lambda i: new[i] if i < len(new) else None  # noqa: E731
+        verdict, pulled = run_parser(entry, sup, len(new), True if noloc else False)
+        exp = G.recognises(new, **grammar_args(entry))
+        ok = (verdict == "ok") == exp and verdict in ("ok", "error")
+    return result(ok, exp)
+
+
 def parse_text_agree(entry, s):
     """whole pipeline on a text: real parse entry point vs reference lexer + grammar"""
     try:
@@ -555,6 +583,14 @@ def _bytes_equiv(seed: int, cut: int, pre: int, suf: int) -> bool:
 
 
 CONDITIONS = [
+    Cond(
+        name="span_edits", fn=_span_edits, quick=150, thorough=900, per_path=30, shards_quick=16, shards_thorough=16,
+        bound="one witness text per expanded production alternative of the grammar (%d sentences) with EVERY contiguous span of 1..3 (thorough 4) tokens removed (this empties argument lists, selection sets, variable definitions, "
+              "object / list values, member lists; drops optional parts; fuses neighbours), thorough also with the span written twice: the parser accepts exactly when the grammar does" % N_SENT,
+        symbolic={"sent": "choice: sentence", "start,length": "choice: the span", "dup": "choice: remove / repeat", "noloc": "choice"},
+        assumptions=["as tok_exec; sentences are tokenised by the reference lexer"],
+        witness={"sent": 0, "start": 1, "length": 1, "dup": False, "noloc": False},
+    ),
     Cond(
         name="bytes_equiv", fn=_bytes_equiv, quick=90, thorough=400, per_path=30, shards_quick=N_SEEDS_QUICK, shards_thorough=len(SEEDS),
         bound="UTF-8 bytes vs str: %d (thorough: all %d) seed texts cut at EVERY position x %d prefixes (BOM, comment with a 2-byte / 4-byte character ended by LF / CR) x %d suffixes (quick: every prefix with the first two suffixes, every suffix without prefix; unterminated quoted / block string, "
